@@ -14,11 +14,11 @@ package main
 import (
 	"encoding/json"
 	"fmt"
-	"io"
-	"log"
 	"github.com/hneemann/parser2"
 	"github.com/hneemann/parser2/funcGen"
 	"github.com/hneemann/parser2/value"
+	"io"
+	"log"
 	"sort"
 	"strings"
 	"time"
@@ -285,22 +285,22 @@ type C15Case struct {
 // ---------------------------------------------------------------- program generator (lexeme lists)
 
 const (
-	tIdent = 0
-	tKeyWord = 1
-	tOpen = 2
-	tClose = 3
-	tOpenBracket = 4
+	tIdent        = 0
+	tKeyWord      = 1
+	tOpen         = 2
+	tClose        = 3
+	tOpenBracket  = 4
 	tCloseBracket = 5
-	tOpenCurly = 6
-	tCloseCurly = 7
-	tDot = 8
-	tComma = 9
-	tColon = 10
-	tSemicolon = 11
-	tNumber = 12
-	tString = 13
-	tOperate = 14
-	tInvalid = 16
+	tOpenCurly    = 6
+	tCloseCurly   = 7
+	tDot          = 8
+	tComma        = 9
+	tColon        = 10
+	tSemicolon    = 11
+	tNumber       = 12
+	tString       = 13
+	tOperate      = 14
+	tInvalid      = 16
 )
 
 type pgen struct {
@@ -859,6 +859,23 @@ func boundarySig(items []Item, i int) string {
 	return fmt.Sprintf("%s|%s|%s", left, shape, items[i].Class)
 }
 
+// sepKinds: the kinds of separators standing between the previous lexeme and lexeme item i
+func sepKinds(items []Item, i int) string {
+	ks := map[string]bool{}
+	for j := i - 1; j >= 0; j-- {
+		if !items[j].IsSep {
+			if items[j].Text == "" {
+				continue
+			}
+			break
+		}
+		for _, k := range strings.Split(items[j].shape(), ",") {
+			ks[k] = true
+		}
+	}
+	return strings.Join(sortedKeys(ks), ",")
+}
+
 func literalSig(it Item) string {
 	cls := map[string]bool{}
 	for _, c := range it.Toks[0].Img {
@@ -952,7 +969,7 @@ func (x *c15run) runLayout(cs C15Case, source string) {
 			break
 		}
 		if exp[i].Line != obs[i].Line {
-			sig = "line|" + boundarySig(cs.Items, exp[i].Item)
+			sig = "line|" + sepKinds(cs.Items, exp[i].Item)
 			what = fmt.Sprintf("token %d is reported on line %d, it starts on line %d", i, obs[i].Line, exp[i].Line)
 			break
 		}
@@ -1096,21 +1113,21 @@ func (x *c15run) corpus() {
 		return Item{Text: t, Canon: t, Toks: []PTok{{tIdent, s}}, Kind: 2, Class: "quoted"}
 	}
 	layouts := [][]Item{
-		{id("x"), op("+"), sepItem(bc("c")), num("1")},                                                        // x+/*c*/1
+		{id("x"), op("+"), sepItem(bc("c")), num("1")}, // x+/*c*/1
 		{kw("if"), sepItem(bl), id("a"), sepItem(bl), kw("then"), sepItem(bc("c")), num("1"), sepItem(bl), kw("else"), sepItem(bl), num("2")}, // then/*c*/1
-		{id("x"), sepItem(bl, bc("a"), bc("b"), bl), op("+"), num("1")},                                       // adjacent comments
+		{id("x"), sepItem(bl, bc("a"), bc("b"), bl), op("+"), num("1")},                                                                       // adjacent comments
 		{sepItem(bc("a"), bc("b")), id("x")},
 		{str("a•b×c÷d–eˆf")},
 		{q("a•b")},
-		{id("abc"), sepItem(bc("\n"), bl), op("+"), num("1")},                                                 // identifier + block comment with LF
+		{id("abc"), sepItem(bc("\n"), bl), op("+"), num("1")}, // identifier + block comment with LF
 		{num("1"), sepItem(bc("c")), op("+"), num("2")},
 		{num("12"), sepItem(bc("\n\n")), op("-"), sepItem(bc("\n")), num("2")},
 		{id("a"), op("+"), sepItem(lc("c")), num("1")},
-		{id("a"), sepItem(lc("ss"), lc("ss"), lf), id("a")},                                                   // token_test "comment 10" shape (two idents)
-		{id("a"), sepItem(lf, bc("\n***\n"), lf), op("+"), num("1")},                                          // "ml comment 4"
-		{id("a"), sepItem(bc("***")), op("+"), num("1")},                                                      // "ml comment 2"
-		{id("a"), sepItem(lf, Sep{Kind: "blockE", Body: " *"})},                                               // "ml comment 7"
-		{id("a"), sepItem(Sep{Kind: "lineE", Body: ""})},                                                      // "comment 8"
+		{id("a"), sepItem(lc("ss"), lc("ss"), lf), id("a")},          // token_test "comment 10" shape (two idents)
+		{id("a"), sepItem(lf, bc("\n***\n"), lf), op("+"), num("1")}, // "ml comment 4"
+		{id("a"), sepItem(bc("***")), op("+"), num("1")},             // "ml comment 2"
+		{id("a"), sepItem(lf, Sep{Kind: "blockE", Body: " *"})},      // "ml comment 7"
+		{id("a"), sepItem(Sep{Kind: "lineE", Body: ""})},             // "comment 8"
 		{id("a"), op("/"), sepItem(bl, bc("c")), id("b")},
 		{id("a"), op("*"), sepItem(bc("c")), id("b")},
 		{id("a"), plain("÷", "op", PTok{tOperate, "/"}), sepItem(bc("c")), id("b")},
